@@ -1,13 +1,13 @@
 package checks
 
 import (
-	"os"
 	"bytes"
 	"encoding/hex"
 	"encoding/json"
 	"fmt"
 	"net/http"
 	"net/http/httptest"
+	"os"
 	"runtime"
 	"strings"
 	"sync"
